@@ -529,13 +529,21 @@ def step_layermap(cfg, loc):
 
 
 def raw_pum(cfg):
+    return cfg_yes(cfg, "process-unmapped-keys")
+
+
+def raw_blk(cfg):
+    return cfg_yes(cfg, "block-unmapped-keys")
+
+
+def cfg_yes(cfg, opt):
     for d in range(0, len(cfg["files"]) + 1):
         for it in doc(cfg, d):
             inner = unwrap(it)[1]
             if head_txt(inner) == "defcfg":
                 ks = inner[1]
                 for k in range(1, len(ks) - 1):
-                    if ks[k] == A("process-unmapped-keys") and ks[k + 1] == A("yes"):
+                    if ks[k] == A(opt) and ks[k + 1] == A("yes"):
                         return True
     return False
 
@@ -552,9 +560,9 @@ def can_layermap_w(cfg, loc, w, g, pos):
     if w == "_":
         return bool(g) and all(ks[i + 1] == ks[g[0] + 1] for i in g)
     if w == "__":
-        return not g and raw_pum(cfg)
+        return not g and raw_pum(cfg) and not raw_blk(cfg)
     if w == "___":
-        return raw_pum(cfg) and all(ks[i + 1] == A("_") for i in g)
+        return raw_pum(cfg) and not raw_blk(cfg) and all(ks[i + 1] == A("_") for i in g)
     return False
 
 
@@ -694,7 +702,7 @@ def layermap_w_sites_sample(cfg, loc, rng):
     """one random (w, G, pos) for the deflayer at loc (the full set is exponential in the layer width)"""
     ks = unwrap(item_at(cfg, loc))[1][1]
     n = len(raw_src(cfg))
-    ws = ["_"] + (["__", "___"] if raw_pum(cfg) else [])
+    ws = ["_"] + (["__", "___"] if raw_pum(cfg) and not raw_blk(cfg) else [])
     for w in rng.sample(ws, len(ws)):
         if w == "__":
             g = []
